@@ -51,7 +51,7 @@ claim('C06', 'must-check gate analysis with operand provenance + finite decision
 claim('C07', 'reader/writer type agreement + constant-table equality + abstract interpretation of codec functions (repo and dependency) + provenance',
       'Static: every decode of a verified payload targets *envelope.Payload (what both signers marshal) or a generic map, into a fresh variable (json.Unmarshal keeps what the input omits); notation.VerifyBlob and UserMetadata return fields of the payload decoded from the verified outcome; the signer and verifier hash->digest '
       'tables are equal and cover the hashes core-go binds to the six key specs; proto.HashAlgorithmFromKeySpec equals core-go KeySpec.SignatureAlgorithm().Hash() on all six (both interpreted abstractly); Encode/DecodeKeySpec are inverse; '
-      'payload = Payload{Sanitize(desc)} with exactly four fields copied, the accepted content-type constant is the one written, expiry = SigningTime+duration only if non-zero and whenever non-zero (every path to the hand-over of either signer's request writes its expiry field or passes the zero-duration edge), blob digest algorithm from the key spec with fail-closed miss; the blob descriptor generator (which drains a one-shot reader) is evaluated at most once on every path of signing and verification. '
+      'payload = Payload{Sanitize(desc)} with exactly four fields copied, the accepted content-type constant is the one written, expiry = SigningTime+duration only if non-zero and whenever non-zero (every path to the hand-over of the request of either signer writes its expiry field or passes the zero-duration edge), blob digest algorithm from the key spec with fail-closed miss; the blob descriptor generator (which drains a one-shot reader) is evaluated at most once on every path of signing and verification. '
       'These are necessary agreement conditions of the round trip; the round trip itself (cryptography, encoders) is not decidable statically.', 'DESIGN.md 2/C07')
 
 claim('C08', 'effect-site gates on the selection loop + finite decision table by abstract interpretation (precedence) + ownership/deep-copy analysis on SSA',
